@@ -51,15 +51,18 @@ class Upstream:
 
     def __call__(self, ex):
         self.calls[ex['i']] += 1
-        return {'i': ex['i'], 'v': ex['i'] * 10 + 7}
+        return _want(ex['i'])
 
 
 def _pipeline(up):
     return DictDataset({f'k{i}': {'i': i} for i in range(N)}).map(up)
 
 
+NONE_AT = 1        # the pipeline value of this example is None: a value like any other, which the cache has to store and serve
+
+
 def _want(i):
-    return {'i': i, 'v': i * 10 + 7}
+    return None if i == NONE_AT else {'i': i, 'v': i * 10 + 7}
 
 
 def _release(*names_in_ns):
